@@ -7,181 +7,311 @@ ROOT = os.path.dirname(os.path.dirname(os.path.abspath(__file__)))
 
 CLAIMED = {
     "C01": dict(
-        text="Lean theorem validate_sound: if the symbolic validator accepts the straight-line numpy program translated from a traced graph against the symbolic loop-notation "
+        text="Lean theorem validate_sound(_extended): if the symbolic validator accepts the straight-line numpy program translated from a traced graph against the symbolic loop-notation "
              "denotation, then for ALL tensor contents and ALL interpretations of the elementary functions the program computes the denotation (naturality of plan execution "
-             "w.r.t. homomorphisms of element algebras). lower_id_correct/lower_id_validates (Props/C01Lower.lean): for EVERY pair of id expressions in the domain of the decomposer model (groups to any depth, unit and "
-             "broadcast axes, any permutation, all lengths) the emitted reshape/transpose/broadcast program equals the denotation, which is defined; peel_eq_unravel, "
-             "argfind_coordinates_meaning, get_at_index_meaning, normArith_sound, views_fuel_sufficient. On every run: the real traced graphs of generated id/elementwise(n-ary)/"
-             "reduction/dot/flip/roll/argmax/argmin/get_at/sort/argsort calls are validated in the Lean driver; the numpy "
-             "primitive plans are conformance-tested against numpy; every generated call of every family (id, reductions, elementwise, dot, get_at, argfind, preserve_shape; "
-             "three numpy backends) is executed on integer data and compared with an independent Python loop interpreter (the failing-input search).",
-        note="Trusted: Lean kernel, driver, graph serialiser/translator (graph JSON -> Instr list, in Lean), numpy primitive plans (conformance-tested), the Python loop interpreter, "
-             "einx's own solved expression trees (front-trusted; tied by C02/C07/C12). softmax, log_softmax and logsumexp rest on the end-to-end oracle comparison alone (the generated code is the max-stabilised composition); graphs collapsed by "
-             "InlineGraph are not translated by the validator. lowerId is a model of the decomposer tied to traced graphs by C17's stb_model stream. Only numpy backends can run here.",
-        technique="Lean 4 proof (validator soundness) + per-call translation validation of real traced graphs + oracle differential",
+             "w.r.t. homomorphisms of element algebras); validate_sound_arith, peel_eq_unravel, argfind_coordinates_meaning, get_at_index_meaning, normArith_sound, views_fuel_sufficient. "
+             "Lowering algorithm = denotation for EVERY description in the domain of the decomposer models (groups to any depth, unit and broadcast axes, any permutation, all lengths): "
+             "lower_id_correct/_validates/_all_inputs (Props/C01Lower.lean), lower_elementwise_correct (any number of operands; fixed arity or left fold of the binary function) and "
+             "lower_reduce_correct with _validates/_all_inputs (Props/C01LowerOps.lean; line-by-line models of Decomposer.__call__ around elementwise/reduce with the numpy wrappers). "
+             "extracted_unravel_eq (Props/C01Xlate.lean): _unravel, translated from the source on every run, computes Denote.peel = unravel under the front end's guard. "
+             "lower_get_at_correct / extracted_get_at_correct (Props/C14Join.lean, audited with C01): the value-level get_at lowering with the regenerated _ravel kernel equals the denotation "
+             "of the operation built from the description alone. "
+             "On every run: the real traced graphs of generated id/elementwise(n-ary)/reduction/dot/flip/roll/argmax/argmin/get_at/sort/argsort calls are validated in the Lean driver; "
+             "stream lower_model (model program = traced pre-optimisation graph instruction by instruction, domain membership, recomputed theorem instance, dimensions; size-genericity "
+             "instances via lower_generic); stream at_model (complete instruction sequence of the get_at lowering model, computed from the solved expressions alone, = traced graph; the proved "
+             "validator recomputes that the model's program equals denoteGetAt); translated _unravel "
+             "vs the real one; numpy primitive plans conformance-tested against numpy; every generated call of every family (three numpy backends) plus directed sweeps (bracket subsets, "
+             "repeated names, empty reductions, dot batch orders, n-ary multiply on the einsum backend, outputs with two concatenations, softmax-family slices of very different magnitude) "
+             "is executed on integer data and compared with an independent Python loop interpreter (the failing-input search).",
+        note="Trusted: Lean kernel, driver, graph serialiser/translator (graph JSON -> Instr list, in Lean), numpy primitive plans (conformance-tested; np.einsum modelled as the left fold of "
+             "binary multiply, the flat n-ary form also accepted), the Python loop interpreter, the typed Python->Lean mini translator and its reading of the builtins (Basic/PyPrelude.lean, "
+             "conformance-tested), einx's own solved expression trees (front-trusted; tied by C02/C07/C12). softmax, log_softmax and logsumexp rest on the end-to-end oracle comparison alone; "
+             "graphs collapsed by InlineGraph are not translated by the validator. Lowering theorems hold in the models' decidable domains only (no concatenation, no repeated name/diagonal, "
+             "no scalar operands, output names pairwise different); the models are tied to traced graphs by the stb_model / lower_model streams; ewKindOf/redOps are hand-written mirrors of the "
+             "numpy wrapper table. _unravel is translated at the level of one element. The get_at lowering is proved at value level; its instruction sequence is validated per traced call, "
+             "not universally. Open defect D22 (found by the C14 work package, reproduced on real einx, no known_findings.json entry): coordinates in a narrow integer dtype wrap in _ravel "
+             "(get_at('[b c], p [2] -> p') with int8 coordinates into a 20x20 target returns wrong elements); the check does not raise it (the narrow-dtype stream of C14 chooses sizes for which only the index ranges could wrap). "
+             "Only numpy backends can run here.",
+        technique="Lean 4 proof (validator soundness, lowering-algorithm correctness) + per-call translation validation of real traced graphs + kernel translated from source + oracle differential",
         design="5 (C01), 4 (M3, M5)"),
     "C02": dict(
         text="Lean theorems about a reference solver over unbounded Nat: unit propagation derives only forced values (propagate_forced), verdict none means no solution, "
              "verdict unique means the answer satisfies the system and every solution equals it, fuel sufficiency, checker iff Sat; the same for the rank level "
-             "(ellipsis repetition counts, width polynomials) and the two-level solver against the specification Sols (solveAll_sound, checkAll_iff). CSE at value level: valueRange proved equal to the translation of the current _value_range source (extracted_valueRange_eq), "
-             "valueRange_spec (a non-None range is exactly the value set), cse_preserves_sols / cse_solvable_iff / cse_forced_iff / cse_propagate_sound. "
+             "(ellipsis repetition counts, width polynomials) and the two-level solver against the specification Sols (solveAll_sound, checkAll_iff). CSE at value level: valueRange proved "
+             "equal to the translation of the current _value_range source (extracted_valueRange_eq), valueRange_spec (a non-None range is exactly the value set), cse_preserves_sols / "
+             "cse_solvable_iff / cse_forced_iff / cse_propagate_sound. CSE as a whole (Props/C02Cse.lean): cseTrees, a step-by-step model of stage2/cse.py (dict of printed sub-expressions "
+             "incl. slices, eight filters, selection order, replace with longest match, smart constructors); cse_trees_is_cse_step (every input: every replacement passed the value-range / "
+             "no-repetition filter), cseTrees_preserves_sols_partial (+ _solvable_iff, _forced_iff, _value_forced_iff): under the decidable per-input side conditions cseCheck the stage-3 "
+             "system of the output has exactly the solutions of the input's, extended by cse.<k> := value of the replaced part. Props/C02Cse2.lean sorts the conjuncts of cseCheck: proved for "
+             "every input - value_range_fixed_is_value, cse_used_unbounded, cse_used_minpos (given the input fact minPosForest); cseCheck_of_reduced and "
+             "cseTrees_preserves_sols_reduced_partial state the theorem with exactly the remaining decidable hypotheses inputOK, freshOK, rootDimsOK, copiedOK, sharedOK. Props/C02Unexpanded.lean: "
+             "valueSystemU models stage2.solve's UnexpandedEllipsis branch (unexpanded_model_extends); unexpanded_sound_iff (the free axis adds no solution iff the value range of the repeated "
+             "expression is unbounded with minimum <= 2), unexpanded_complete, three_pow_never_two. "
              "On every run einx's solve_axes/solve_shapes/matches and the shapes of id/sum results are compared with the proved solver and with an independent brute-force "
-             "Python enumerator on generated, mutated and 2**31..2**64 inputs under the three obligations the property states.",
+             "Python enumerator on generated, mutated, directed-sweep (incl. long per-repetition constraints, groups repeated with different lengths) and 2**31..2**64 inputs under the three "
+             "obligations the property states; the real cse is compared structurally with cseTrees on captured and generated forests, cseCheck and its parts are evaluated on every real input, "
+             "and stream E (forest_sys) compares forestSys with the canonicalised equations the real stage3.solve hands to util.solver.solve on every captured call.",
         note="Trusted: Lean kernel, driver, harness, Python brute-force oracle; expression trees come from einx's own stage-1 parser (front-trusted; parser is C12). sympy is not "
-             "modelled (observed behaviourally); CSE's candidate search and tree surgery are C16's model, linked to the value-level theorems on an instance only. Success is demanded only where unit propagation suffices.",
-        technique="Lean 4 proof over reference solver + differential correspondence with brute-force oracle",
+             "modelled (observed behaviourally; stream E compares equations, not the solver). Of the side conditions of the CSE preservation theorem, freshOK, rootDimsOK, copiedOK and the "
+             "disjointness half of sharedOK are FALSE for the real code on the inputs of three open defects, each failing exactly one part (decide'd examples, checked on the captured calls): D19 "
+             "(user axis named cse...), D20 (sum('a ([c d]) [c d]') AssertionError), D21 (matches('(a 1 d), (1 d) c, (a 1)', 12, (2,2), 4) returns True; solve_shapes('(a 1 d), (1 d) c', 6, (3,2)) "
+             "raises) - whitelisted by exact input in c02_cse.DOCUMENTED_NOT_MET, not in known_findings.json, not reported as violations; candidate patches for D19/D20 exist (docs/wp) but are "
+             "not applied. sharedOK half 1 (same key => same shape) is checked per input; inputOK is a fact about stage 2's output evaluated per call; valued axes are constants in forestSys. "
+             "unexpanded_sound_iff is a criterion on value ranges, bridged to valueSystemU for the witness only. "
+             "Success is demanded only where unit propagation suffices. The UnexpandedEllipsis finding (further instance solve_axes('((b + c + d)...)', zeros(2))) is matched by call site.",
+        technique="Lean 4 proof over reference solver and over a step-by-step model of cse.py + structural and differential correspondence with brute-force oracle",
         design="5 (C02)"),
+    "C03": dict(
+        text="Lean model of ExpressionIndicator over the C12 parser model with theorems that every caret position computed from a tree of the caller's description (sub-expressions, "
+             "_parse_op's rewrites, ellipses included) lies inside the description (indicator_pos_in_range, indicator_ellipses_in_range, indicator_never_negative), so error reporting "
+             "cannot raise AssertionError; obligations over the extracted error hierarchy, indicator formulas and the reviewed inventory of front-end assert sites; proved-exhaustive "
+             "classification of raised exceptions. Rejection theorems: parse_no_internal (every string: tree or SyntaxError; the five internal outcomes are unreachable under obligations on "
+             "the extracted operator/digit tables), parse_root_shape, parse_rejects_bad_char, parse_rejects_unbalanced / parse_unbalanced_kind / stack_accepts_iff_balanced, "
+             "parse_rejects_unwrapped_concat (Props/C03Reject.lean); elab_total (for the extracted flags of every family and all trees _parse_op returns a result or one of twelve SemanticError "
+             "sites), elab_total_desc (string -> result | SyntaxError | SemanticError), one theorem per _parse_op rule and defects_rejected (Props/C03Elab.lean). Props/C03Grammar.lean: "
+             "parse_rejects_multiple_arrows (two '->' outside delimiters: SyntaxError, never a tree), parse_args_rejects_arrow, parse_arrow_two_sides, parse_iff_gram (parse returns a tree of "
+             "kind k iff the inductive attribute grammar Gram derives it; both directions, ellipses included), token_tree_iff, parse_stage_ok_iff, parse_ok_wf (the necessary direction of "
+             "parse_ok_iff in full), parse_ok_iff_staged. Tie: stream R builds inputs "
+             "with each theorem's defect by construction and checks Lean hypothesis, model outcome, real raise site and the public entry point; grammar_spec compares 'parseStage succeeds' with "
+             "'the real parser gets past parse'. Search: probes, single-edit corruptions of "
+             "valid calls that are ill-formed by construction, exhaustive <=3/4-token strings and random strings through ten entry points with numpy-call-logging tensors.",
+        note="Trusted: Lean kernel, driver, AST extractor, harness; the rule which ValueError/TypeError count as argument errors (raise statements in einx's argument-validation functions). "
+             "Clause (b) 'ill-formed => raises before any backend computation' is a theorem for bad characters, unbalanced delimiters, '+' and a second '->' outside delimiters, '->' in "
+             "parse_args and the _parse_op rules in tree mode of the elementary signature; the level rules of the move_up passes, bracket consistency, l.210/l.243/argHasComma on strings (hence "
+             "no full parse_ok_iff: the passes after parse are not characterised declaratively), string mode (D11), checks after _parse_op, stage-2/3 rejection and stage-2/3 copies of "
+             "positions are behavioural only.",
+        technique="Lean 4 proof (caret positions, classification, parser/_parse_op totality and rejection rules) + regenerated source inventory + defect-by-construction stream + corruption/exhaustive search",
+        design="5 (C03)"),
+    "C04": dict(
+        text="Byte-exact Lean model of the code generator (usage counting, scopes, per-node rules, fuse/liveness, naming incl. the keyword/hint filter of names(), rendering; switches REGENERATED "
+             "from the AST of usage.py/__init__.py) with theorems compile_correct_wf (universal: for every graph satisfying the decidable Graph.WF and all switches, compile success implies "
+             "that the reference evaluation succeeds with the same event trace and result as executing the emitted statements; nested graphs, in-place calls, item updates), "
+             "fuse_produces_safe (the name groups of the real fuse loop's model satisfy the interference condition whenever its two filters are present), hence "
+             "compile_correct_wf_fused_total / compile_correct_extracted (the statements WITH the generator's names, for the generator as extracted on this run, no per-graph premise), "
+             "fuse_text_safe / fuse_text_sound (the same per block in text order), compile_correct(_flat,_compiled,_fused), emit_closed, visitOrder_nodup/_noSelfRef/_wellBracketed, emit_order, "
+             "emit_once(_wf), fuse_sound, extracted_names_filtered / nextName_not_refused / assignNames_names_ok (no generated name is a Python keyword or a hinted name), obligations "
+             "value_computed_once / self_contained / unary_operator over the extracted switches, decide'd D6 witness. On every run: model text == real compile() text on captured and synthetic "
+             "graphs (all node kinds, nested graphs, 45/30/420-variable probes); the driver re-decides wf_graph and, redundantly, closed_prog / fuse_safe / fuse_safe_prog / single_def / "
+             "blocks_bound and symbolic execution = evalGraph per graph; search: exec of the emitted text on instrumented versioned objects vs a memoised node-by-node reference interpreter "
+             "(results, ordered effects, evaluation counts), graph=True text == exec'd text, 'failed to compile' is a violation.",
+        note="Trusted: Lean kernel, driver, extractor, harness/reference interpreter. Graph.WF is decided per graph by the driver (true on all graphs seen). "
+             "The theorems execute statements in emission order (and one block at a time in text order); Python's scoping of the whole text (closures, hoisted imports) is not modelled. "
+             "Reading of 'computed once': attribute lookups on imported modules and builtin names are constant lookups (rendered inline by design), every other node value is computed once.",
+        technique="Lean 4 proof over byte-exact generator model + switches regenerated from source + per-graph translation validation + instrumented execution search",
+        design="5 (C04)"),
+    "C05": dict(
+        text="Lean theorems about the same plan functions the validator executes, for all ranks/shapes/permutations/element algebras: transpose_transpose over the permutation-composition "
+             "kernel TRANSLATED from optimizer/classical.py on every run (composePerm_spec by rfl breaks if the order is reversed), transpose_id, reshape_same, reshape_reshape, broadcast_same, "
+             "concat_singleton, each extracted no-op test implies its theorem's hypothesis, rule_sound / rewrites_sound / rewrite_sound / optimize_sound(_fixpoint) (whole passes on the term "
+             "model, any traversal order), rebuild_preserves / unfold_sound (sharing as let-bindings), optimize_terminates, equiv_sound/equivG_sound. Props/C05Dag.lean: optimizeDag, a "
+             "line-by-line model of the REAL memoised traversal (Optimizer._optimize, six patterns over the extracted kernels, rebuild, changed loop) on DAG stores; pass_sound_dag / "
+             "optimizeDag_sound (for every element algebra the optimised program returns what the given one returns on the DAG evaluator, laws discharged by irSem_satisfies_laws, under the "
+             "decidable run condition goodRun), pass_terminates (recursion depth 2*(nodes+graphs)+2 suffices), optimizeDag_terminates(_partial). Props/C05Dag2.lean: pass_preserves_wf (a pass "
+             "maps a topologically ordered store to one with distinct fresh inputs), goodRun_of_input / fuelRun_of_input / optimizeDag_sound_input (the run conditions follow from wfTop, topoOK of "
+             "the input graph and the decidable run condition noInlineRun), pass_decreases_dag (the output unfolded into a tree never grows and strictly shrinks in a pass that reports changed), "
+             "optimizeDag_pass_bound, optimizeDag_terminates_dag (the loop never exhausts the budget weight+1; no measure hypothesis; single-output stores). In-place nodes are opaque "
+             "applications of the DAG evaluator, so the soundness theorems cover the graphs of the *_at operations. On every run each real graph before/after "
+             "tracer.optimize is proved equal symbolically in the driver (unsupported primitives fall back to a node-by-node numpy evaluator incl. in-place nodes); the model optimizeDag is run "
+             "on the store of every real pre-optimisation graph with the real pattern list and must be structurally equal to the real optimised graph with equal changed flags per pass (so the "
+             "pass bound applies to the real pass count wherever the tie holds); topoOK / measureOK / noInlineRun and the weight of every pass are recomputed per graph and checked against the theorems; real "
+             "passes are monitored for the termination measure; synthetic chains with shared sub-graphs are optimised with the real pattern objects.",
+        note="Trusted: Lean kernel, driver, the Python->Lean mini translator for the kernel anchors, graph/store serialisers (graphcap, dagcap), numpy primitive plans. optimizeDag_sound(_input) covers "
+             "stores with one output per application, no nested graphs, top-level graph not inlined (703 of 782 real graphs at seed 0, all 25 with in-place nodes among them). For in-place nodes "
+             "the RESULT is preserved (opaque function of the operand values, evaluated once); preservation of the ORDER of effects and aliasing of buffers are not proved (per-graph evaluator). "
+             "noInlineRun is a decidable condition on the run (4 of 782 graphs fail it), not on the input. Multi-output casts, Assert, nested graphs and top-level InlineGraph stay per real graph "
+             "(structural tie + equiv + evaluator); the measure theorems exclude multi-output applications; Cast is the identity by construction of the translation.",
+        technique="Lean 4 proof over kernels translated from source and over a model of the real traversal + per-graph structural tie and translation validation (pre vs post optimisation)",
+        design="5 (C05)"),
     "C06": dict(
         text="Lean theorems: memo_transparent (any history, any eviction policy that only drops entries: a call's outcome equals the fresh outcome whenever equal keys imply equal "
              "computations; failing computations are not stored), key_refines_observation (for the _freeze_value dispatch table REGENERATED from the AST on every run: equal cache keys "
              "imply equal typed observations; obligations respects/tagsAll by decide; refutation witness for the untagged table), stack_restored (with/depend_on stacks are balanced on "
-             "every path, over extracted __exit__ facts). Ties: model freeze/==/exact hash vs CPython on 20k value pairs; memo machine predictions vs warm outcomes; search: warm-vs-cold "
-             "differential against pristine forked interpreters on directed and random call histories.",
-        note="Trusted: Lean kernel, driver, AST extractor of _freeze_value/lru_cache/__exit__, harness and fork server. General hash consistency (pyEq -> equal hash) is tied behaviourally, "
-             "not proved; NaN, ndarray-valued factory defaults and the identity short-cut of container comparison are outside the value model (explicit assumptions).",
+             "every path, over extracted __exit__ facts). Props/C06Hash.lean: pyEq_hash (== as the cache performs it implies equal hash, for every dispatch table and all values of the model: "
+             "numbers across kinds, frozendicts in any order, _Scalar, Parameter, tensor-factory placeholders), key_hit_iff_eq (a hit is exactly key equality), frozen_key_eq_iff / "
+             "extracted_key_eq_iff (two keys are == iff the exact observations agree), exact_observation_hits, einx_cache_transparent_exact. Props/C06Num.lean: models of CPython's long_hash "
+             "(30-bit digits, C rotation) and _Py_HashDouble (frexp, 28-bit mantissa loop) are proved equal to the specification numHash the other theorems use (hashInt_eq_numHash for all "
+             "integers, hashDouble_eq_numHash for all dyadic rationals, int_float_hash_agree, hash_never_minus_one, hashNum_eq_numHash). Ties: model freeze/==/exact hash vs CPython on 20k "
+             "value pairs incl. placeholders, == => equal hash on CPython, real key equality = exact-observation equality, CPython hash of every generated number vs numHash/hashInt/hashDouble; "
+             "memo machine predictions vs warm outcomes; search: warm-vs-cold "
+             "differential against pristine forked interpreters on directed and random call histories (keyword tensors, re-entry with-histories) and, on every run, 18 mandatory ordered pairs in "
+             "both orders (keepdims, factory signatures, functools.partial / callable objects with identical repr, adapted callables with identical generated text).",
+        note="Trusted: Lean kernel, driver, AST extractor of _freeze_value/lru_cache/__exit__/ConvertibleTensor.__eq__, harness and fork server. The numeric hash is proved at the level of CPython's "
+             "algorithms on exact dyadic values; trusted: a C double is the dyadic rational as_integer_ratio() reports, numpy scalars hash their Python value (tied behaviourally); inf, NaN, "
+             "complex excluded. frozen_key_eq_iff needs placeholder-free concrete values inside placeholders (what einx builds); exactEq/keyEq are not proved equivalence relations; the bounded "
+             "LRU's reordering is not modelled; the mandatory pairs are directed tests; "
+             "NaN, complex numbers and the identity short-cut of container comparison are outside the value model (explicit assumptions).",
         technique="Lean 4 proof over hand-written model + dispatch table regenerated from source + differential correspondence + warm/cold search",
         design="5 (C06)"),
-    "C03": dict(
-        text="Lean model of ExpressionIndicator over the C12 parser model with theorems that every caret position computed from a tree of the caller's description (sub-expressions, "
-             "_parse_op's rewrites, ellipses included) lies inside the description (indicator_pos_in_range, indicator_ellipses_in_range, indicator_never_negative), so error reporting "
-             "cannot raise AssertionError; obligations over the extracted error hierarchy, indicator formulas and the reviewed inventory of front-end assert sites (a re-added assert breaks "
-             "front_sites_reviewed); proved-exhaustive classification of raised exceptions. Search: probes, single-edit corruptions of valid calls that are ill-formed by construction, "
-             "exhaustive <=3/4-token strings and random strings through ten entry points with numpy-call-logging tensors.",
-        note="Trusted: Lean kernel, driver, AST extractor, harness; the rule which ValueError/TypeError count as argument errors (raise statements in einx's argument-validation functions). "
-             "Not proved: stage-2/3 copies of positions, foreign parse trees of shapes/keys, and the elaboration verdict (no full M2 model): clause (b) 'ill-formed => raises before any "
-             "backend computation' is behavioural only.",
-        technique="Lean 4 proof (caret positions, classification) + regenerated source inventory + corruption/exhaustive search",
-        design="5 (C03)"),
-    "C13": dict(
-        text="Lean model of namedtensor_calltensorfactory (call node + isinstance/shape asserts per factory argument, optional keywords by the rule REGENERATED from the AST) with theorems "
-             "factory_node_once / factory_node_count (all argument lists), factory_kwargs_declared_only, factory_asserts_before_use, factory_no_constraints, trace_is_pure, and a checker "
-             "factoryOK on real traced graphs with checker_sound (accepted graph => in every execution that evaluates each reachable node once the factory is invoked exactly once with the "
-             "solved shape and the declared keywords) and checker_guard. Ties: factory_check on pre/post-optimisation graphs, emitted text vs model node list; search: instrumented factories "
-             "(12 signature styles, misbehaving ones, python -O) over cold/warm/graph=True/rejected executions and every subset of positions.",
-        note="Trusted: Lean kernel, driver, extractor anchors (tracing evaluates nothing, graph=True returns before the call), C04's emit_once as the named hypothesis Exec, harness.",
-        technique="Lean 4 proof over model + proved checker on real graphs + invocation-log search",
-        design="5 (C13)"),
-    "C04": dict(
-        text="Byte-exact Lean model of the code generator (usage counting, scopes, per-node rules, fuse/liveness, naming, rendering; switches REGENERATED from the AST of usage.py/"
-             "__init__.py) with theorems compile_correct_wf (universal: for every graph satisfying the decidable Graph.WF and all switches, compile success implies that the reference evaluation succeeds with the same "
-             "event trace and result as executing the emitted statements; nested graphs, in-place calls, item updates), compile_correct(_flat,_compiled,_fused), emit_closed, visitOrder_nodup/_noSelfRef/_wellBracketed, emit_order, emit_once(_wf), fuse_sound (renaming under the interference condition preserves trace and result), obligations value_computed_once / "
-             "self_contained / unary_operator over the extracted switches, decide'd D6 witness. On every run: model text == real compile() text on captured and synthetic graphs (all node "
-             "kinds, nested graphs); the driver symbolically executes emitted statements and evalGraph per graph and compares trace and result; search: exec of the emitted text on "
-             "instrumented versioned objects vs a memoised node-by-node reference interpreter (results, ordered effects, evaluation counts), graph=True text == exec'd text.",
-        note="Trusted: Lean kernel, driver, extractor, harness/reference interpreter. Graph.WF is decided per graph by the driver (true on all graphs seen); that the real fuse loop always produces a fuseSafe renaming is checked per graph, not proved; "
-             "the theorems speak about statements in emission order (hoisting of imports in the text is trusted). Reading of 'computed once': attribute lookups "
-             "on imported modules and builtin names are constant lookups (rendered inline by design), every other node value is computed once.",
-        technique="Lean 4 proof over byte-exact generator model + switches regenerated from source + per-graph translation validation + instrumented execution search",
-        design="5 (C04)"),
-    "C15": dict(
-        text="Lean model of the adapter path (keyword split of op.inner, _expr_to_axis mini-translated from source, expected output shapes, traced node list) with theorems "
-             "kwonly_never_axis and split_partition (all keyword lists/descriptions), expr_to_axis_correct, position_interleave, reduce_axis_semantics IN FULL (under the documented numpy-like "
-             "contract the adapter equals the loop-notation denotation for every flat expression/tensor/assignment), adapt_result_checked, adaptOK_sound for the checker run on real graphs. "
-             "Search: nine instrumented user functions (reduce/elementwise, with/without keyword-only options, misbehaving, python -O) vs the Python loop interpreter, invocation logs, "
-             "option histories (2 / 2.0 / True) against fresh adapters.",
-        note="Trusted: Lean kernel, driver, extractor, harness, the numpy-like contract as hypothesis. adapt_with_vmap cannot run here (no framework with vmap installed) and is neither "
-             "exercised nor modelled. reduce_axis_semantics is at the decomposed (flat) level; parentheses/permutation/keepdims go through C01's lowering and are covered behaviourally.",
-        technique="Lean 4 proof over hand-written model + kernel translated from source + proved checker on real graphs + instrumented-function search",
-        design="5 (C15)"),
-    "C16": dict(
-        text="Lean models of every order-sensitive set-consumption site with the enumeration order as an explicit adversarial argument: join_exprs_order_invariant, reorder_add_sub_invariant "
-             "(full), reorder_set_invariant_partial + decide'd witness, implicit_output_order_invariant (over the extracted len==1 guard), cse_filters_order_invariant, "
-             "cse_order_invariant_partial + witness, keepMax_perm / registry_outcome_perm, fresh_name_invariant; obligation that EVERY set-consumption and random-draw site found by the AST "
-             "scan of the call path is classified (order-safe, message-only, guarded pop, or modelled) - a new site breaks it. Search: a fixed corpus (directed cases at every site + "
-             "generated calls + failing calls) run in sub-processes under several PYTHONHASHSEED values and a different uuid stream; digests must agree; graph=True twice per process.",
-        note="Trusted: Lean kernel, driver, the AST scan with intra-function set typing, harness. sympy-internal ordering and float summation order are not modelled (corpus samples them); "
-             "set_at with duplicate addresses and overlapping CSE candidates are order sensitive in the model (witnesses) and rely on the fixed code choosing deterministically.",
-        technique="Lean 4 proof with explicit enumeration-order parameter + source inventory obligation + multi-hash-seed corpus search",
-        design="5 (C16)"),
-    "C05": dict(
-        text="Lean theorems about the same plan functions the validator executes, for all ranks/shapes/permutations/element algebras: transpose_transpose over the permutation-composition "
-             "kernel TRANSLATED from optimizer/classical.py on every run (composePerm_spec by rfl breaks if the order is reversed), transpose_id, reshape_same, reshape_reshape, broadcast_same, "
-             "concat_singleton, each extracted no-op test implies its theorem's hypothesis, rule_sound / rewrites_sound / rewrite_sound / optimize_sound(_fixpoint) (whole passes on the term model with the IR's evaluation semantics, any traversal order), "
-             "rebuild_preserves / unfold_sound (sharing as let-bindings), termination of the pass loop for any strictly-decreasing pass model, equiv_sound/equivG_sound "
-             "(symbolic equivalence of two programs implies equal outputs on all inputs). On every run each real graph before/after tracer.optimize is proved equal symbolically in the driver "
-             "(unsupported primitives fall back to a node-by-node numpy evaluator incl. in-place nodes), real passes are monitored for the termination measure, synthetic chains with shared "
-             "sub-graphs are optimised with the real pattern objects.",
-        note="Trusted: Lean kernel, driver, the Python->Lean mini translator for the kernel anchors, graph serialiser/translator, numpy primitive plans. Whole-pass soundness is proved on the term model (trees; DAGs as let-lists and via unfolding); in-place nodes, InlineGraph and the tie of the real traversal to Rewrites steps "
-             "stay per real graph (equiv + equiv_sound, evaluator); Cast is the identity by construction of the translation.",
-        technique="Lean 4 proof over kernels translated from source + per-graph translation validation (pre vs post optimisation)",
-        design="5 (C05)"),
     "C07": dict(
         text="Lean model of _to_el_expr/_parse_op on the C12 stage-1 trees with per-family flags REGENERATED from the AST; 28 theorems for all trees: implicit-output rules "
              "(superset, single input, same, update, reduce with/without keepdims), auto_brackets, keepdims_is_parenthesised, adjacent_brackets_merge, number_is_fresh_axis, rearrange_is_id "
-             "(over the extracted body), obligations over the extracted flags/el_op builders. Ties: model vs the real _parse_op (canonical trees / error kinds) on generated and recorded calls; "
-             "search: 17 documented short/long pair generators on the real code (values, exception class, generated code).",
-        note="Trusted: Lean kernel, driver, AST extractor, harness. Shorthands that live in stage 2/3 (number = fresh axis for results, anonymous/expanded ellipsis, scalar size = repeated tuple, "
-             "unit coordinate bracket, [a] [b] = [a b] for results) and nested '->'/',' distribution are covered by the pair search only (samples by decide +kernel); argfind's rule has no theorem.",
-        technique="Lean 4 proof over hand-written model on regenerated flags + differential correspondence + metamorphic pair search",
+             "(over the extracted body), obligations over the extracted flags/el_op builders. Stage-2/3 shorthands on the C02 solving model (Props/C07Stage2.lean): ellipsis_unroll "
+             "(ellipsis = written-out repetition), scalar_constraint_is_repeated_tuple, number_is_fresh_axis, rename_preserves_sols / anonymous_ellipsis_shared, anonymous_ellipsis_parse, "
+             "value_system_sound/_complete - solutions correspond with equal axis lengths and shapes. Props/C07Names.lean: the name-hygiene side conditions are theorems - "
+             "node_variables_distinct (every input), side_conditions_of_plain_names (plainNames gives namesOK, freshVars, renOK), parser_names_plain (every operand of a parseOp result is plain), "
+             "hence the premise-free ellipsis_unroll_plain, number_is_fresh_axis_plain, rename_preserves_sols_plain, anonymous_ellipsis_shared_plain; *_verdicts_partial (a unique verdict of the "
+             "reference solver on one form excludes a refutation of the other). Ties: model vs the real _parse_op (canonical trees / error kinds) on generated and recorded "
+             "calls; stream shorthand: the Lean short->long transformation vs einx's stage-1 trees of the long description, unroll vs the real stage-2 expansion, solveAll of both forms, "
+             "plainNames of einx's own stage-1 trees; "
+             "search: 17 documented short/long pair generators, directed pairs for numbers and keepdims brackets inside ellipses, and real solve_axes/solve_shapes short vs long on the real code "
+             "(values, exception class, generated code).",
+        note="Trusted: Lean kernel, driver, AST extractor, harness. The stage-2/3 theorems hold for all inputs with plain axis names (no '#', no name ending in .digits), which is a theorem for "
+             "everything the parser model produces (the model is tied to stage1.parse_op by C12); anonymous_ellipsis_parse is about one token (whole descriptions by the stream; proved: the "
+             "anonymous name occurs only under an ellipsis); equality of solveAll verdicts short/long is checked per case (non-contradiction proved). Pairs whose short form leaves the repetition "
+             "count undetermined are not compared. "
+             "Unit coordinate bracket, [a] [b] = [a b] for results and nested '->'/',' distribution are covered by the pair search only; argfind's rule has no theorem.",
+        technique="Lean 4 proof over hand-written model on regenerated flags and over the C02 solving model + differential correspondence + metamorphic pair search",
         design="5 (C07)"),
     "C08": dict(
-        text="Lean theorems on a loop-free form of the denotation proved equal to the executable one (denoteId_fun_agree_multi, denoteElementwise_fun_agree): renaming invariance for renamings injective on the names in use (denote_rename_on*, denote_reduce_rename), "
-             "pos_flat_is_ravel and the regrouping laws against the IR's reshape plan, input/output permutation against the IR's transpose plan as equalities of whole result tensors (denote_permute_input_tensor/_expr/_elementwise, denote_permute_output_tensor/_expr), positions valid and injective on the iteration "
-             "space, id_inverse and id_compose in full (substitution of symbolic tensors). Search: six metamorphic relations on real einx calls (rename, permute input/output, regroup, round "
-             "trip, composition) over all families/backends with equal lengths and length-1 axes, also evaluated on the Lean denotation.",
-        note="Trusted: Lean kernel, driver, harness. the output permutation law assumes both results defined; reductions: renaming only (bracket-order law not proved); no functional/loop tie for concatenations; transfer to einx goes through C01's tie.",
+        text="Lean theorems on loop-free forms of the denotation proved equal to the executable ones (denoteId_fun_agree_multi, denoteElementwise_fun_agree, denoteReduce_fun_agree, "
+             "denoteDot_fun_agree, denoteId_fun_agree_general for all solved expressions incl. concatenations): renaming invariance for renamings injective on the names in use "
+             "(denote_rename_on*, denote_reduce_rename, denoteId_rename_general), pos_flat_is_ravel and the regrouping laws against the IR's reshape plan (also on expressions for id/reduce/dot), "
+             "input/output permutation against the IR's transpose plan as equalities of whole result tensors; Props/C08b.lean: output permutation laws INCLUDING definedness for id, "
+             "elementwise, reduce and dot, cell_cmp_linear_order / sortCells_multiset_normal_form, denote_reduce_permute_input(_sem) and denote_reduce_bracket_order (any root dimensions of a "
+             "reduction's input, bracketed or not); id_inverse and id_compose in full. Props/C08c.lean: denote_dot_permute_input (root dimensions of one dot operand reordered, contracted or "
+             "not, operand transposed: denoteDot unchanged up to re-sorting the terms of every red:sum, including failure), denote_dot_permute_input_sem (unchanged in value for every "
+             "interpretation with permutation-invariant reductions, no assumption on multiply), denote_dot_regroup_input, denote_elementwise_permute_input (n-ary, loop form), "
+             "denoteId_regroup_input_concat (parentheses on any input of id, arbitrary solved expressions, no hypothesis), denoteId_permute_input_concat_partial, views_wellformed. Ties: "
+             "functional vs loop forms in the driver, reduce-bracket-order, dot-operand-order. Search: six metamorphic relations on real einx calls (rename, permute input/output, regroup, round "
+             "trip, composition) over all families/backends with equal lengths and length-1 axes, directed dot/reduce calls, directed id calls with concatenations (R2/R3/R4) and ternary "
+             "elementwise calls, also evaluated on the Lean denotation of id/elementwise/reduce/dot.",
+        note="Trusted: Lean kernel, driver, harness. The input permutation law with concatenations is for one input and assumes that the enumeration of virtual tensors commutes with the "
+             "permutation (true iff the concatenation-carrying dimensions keep their order; not characterised in Lean); output permutation/regrouping with concatenations is not proved; "
+             "reordering the operands of a dot/elementwise operation is not a law of the symbolic denotation; "
+             "flip/roll/argfind/get_at/sort have no functional form and no laws (relations on real calls only). C08 has no extracted facts; transfer to einx goes through C01's tie.",
         technique="Lean 4 proof over denotation + metamorphic search on the implementation",
         design="5 (C08)"),
     "C09": dict(
         text="Lean store semantics with objects, views and in-place nodes over an alias table of the 54 traced numpy functions (in-place registrations and compiler aliasing facts REGENERATED "
              "from the source): alias_sound, write_frame, noWrite_sound (if the static check passes, input i is unchanged for every store, every view/copy decision and every written content), "
              "at_only_first. On every run: writes(g) of every traced graph (must be [] / within [0] for *_at), alias-table conformance against numpy (shares_memory, write-through) in four "
-             "memory layouts, and a byte/flag/kwargs snapshot oracle on real calls incl. solve_*/matches/graph=True with read-only and strided arguments.",
+             "memory layouts, and a byte/flag/kwargs snapshot oracle on real calls incl. solve_*/matches/graph=True with read-only and strided arguments and directed restructured-input calls.",
         note="Trusted: Lean kernel, driver, extractor, graph translation, the alias table (numpy's view/copy behaviour; conformance-tested each run), C04's claim that each in-place statement "
              "runs once in dependency order. Objects are whole buffers (over-approximation).",
         technique="Lean 4 proof (frame property over alias analysis) + table conformance + snapshot search",
         design="5 (C09)"),
-    "C17": dict(
-        text="Lean: restricted statement grammar of emitted Python with a cost semantics: grammar_loop_free (a block performs exactly flatCalls calls for every environment), "
-             "cost_skeleton_invariant, skeleton_only_ints (equal skeletons iff same up to integer literals), stb_size_generic (the model of _squeeze_transpose_broadcast emits equal "
-             "skeletons for length assignments with the same 1-pattern, all expressions), obligations regenerated from the source (every size-dependent decision in the lowering modules is of "
-             "an allowed class; IR node kinds are straight-line; emitter fragments contain no control keywords). Ties: every emitted text must decode into the grammar in the Lean driver; the "
-             "stb/lowerId model program equals the real traced graph; search: same-1-pattern size re-assignments must give equal skeletons and call counts.",
-        note="Trusted: Lean kernel, driver, the taint-based source inventory, harness. Size-genericity is a theorem only for _squeeze_transpose_broadcast (id partially); all other lowering "
-             "paths rest on the source obligation, the ties and the search (stated in evidence). Only numpy backends run here (no nested-def code from vmap backends).",
-        technique="Lean 4 proof (grammar cost semantics, stb size-genericity) + source inventory obligation + skeleton search",
-        design="5 (C17)"),
     "C10": dict(
         text="Lean interleaving semantics over the sequential registry model (acquire?; read snapshot; compute; store; release? per method, lock table REGENERATED from the AST): "
              "locked_linearizable (for every number of threads, every program and every schedule, a finished execution equals the serial run in commit order: outputs, final state), "
              "locked_no_deadlock, locked_can_finish, locked_outcome_serial, thread_local_noninterference, decide'd lost-update witnesses for unlocked get/enter; obligations over the "
-             "extracted facts (every method locked in one block, thread-local stacks, sys.modules snapshot, functools cache). Tie/search: deterministic settrace scheduler on real "
-             "BackendRegistry objects and end-to-end einx calls (critical, sweep, random, exhaustive schedules); outcomes must equal some serial order run on a fresh real registry.",
-        note="Trusted: Lean kernel, driver, AST extractor, the scheduler (preemption at line/call/return events of einx's Python code only; preemption inside C functions such as "
-             "functools.cache or numpy is not exercised), thread-safety of functools.cache. torch device / array-api namespace stacks have source-fact obligations only (frameworks absent).",
-        technique="Lean 4 proof (linearizability by simulation) + lock discipline regenerated from source + deterministic-scheduler correspondence",
+             "extracted facts (every method locked in one block, thread-local stacks, sys.modules snapshot, functools cache). Compile cache (Props/C10Cache.lean): interleaving model of "
+             "functools.cache (lookup / miss / compute / insert, no lock); cache_concurrent_serializable and cache_results_eq_serial_memo (if the cached function is deterministic in its key, "
+             "every call returns what it returns in every serial order on C06's memo machine, any eviction that only drops entries), cache_final_content / cache_schedule_independent, "
+             "cache_no_deadlock, cache_can_finish, witness that the determinism hypothesis is needed; obligations regenerated from the source (memo kind, stateless wrappers, retrace warning off, "
+             "one cache per api object). Tie/search: deterministic settrace scheduler on real BackendRegistry objects, end-to-end einx calls, lru_cache and first-time compilations (critical, "
+             "sweep, random, exhaustive schedules; observed step sequences replayed in the models); outcomes must equal some serial order run on a fresh real registry / fresh cache.",
+        note="Trusted: Lean kernel, driver, AST extractors, the scheduler with its lock proxies (preemption at line/call/return events of einx's Python code only; preemption inside C functions such as "
+             "functools.cache or numpy is not exercised), atomicity of functools.cache's dictionary read/write under the GIL. Determinism of _construct_graph in its key is a named hypothesis "
+             "(what C06 and C16 establish); bounded LRU: results theorem only; the retrace warning is excluded by obligation. torch device / array-api namespace stacks have source-fact obligations only (frameworks absent).",
+        technique="Lean 4 proof (linearizability by simulation, serializability of the compile cache) + lock discipline regenerated from source + deterministic-scheduler correspondence",
         design="5 (C10)"),
     "C11": dict(
         text="Lean theorems about the model of BackendRegistryState (precedence chain, get = pure specGet in every quiet state with a sound memo, "
              "lookups do not influence later lookups, select_is_max_priority_set, independence of the order of `backends` and of registration order (select_order_independent, get_registration_order_independent), history_independent / history_order_independent "
              "for every history without lazy registration, lazy_history_spec / lazy_history_independent under the decidable discipline, two counterexample theorems outside it, register clears the memo [obligation regenerated from the AST], failing factories isolated, real priorities) "
              "+ step-by-step differential correspondence of the model with fresh real BackendRegistry objects on random op sequences; "
-             "on a broken obligation/tie: search of disciplined histories on the real registry against the pure specification.",
+             "search of disciplined and directed late-registration histories on the real registry against the pure specification.",
         note="Trusted: Lean kernel (propext, Classical.choice, Quot.sound), driver compiled by Lean, AST extractor for _register/priorities, harness. "
              "Undisciplined lazy histories (eager and lazy backends for the same tensor type, or a framework type looked up before its module is imported) are provably history dependent "
              "and only sampled by the correspondence; not reachable with einx's own registrations.",
         technique="Lean 4 proof over hand-written model + regenerated obligations + differential correspondence",
         design="5 (C11)"),
+    "C12": dict(
+        text="Total executable Lean model of parse_op/parse_args/parse_arg (well-founded recursion, no fuel) over constants regenerated from the source; theorems: every string "
+             "yields a tree, a SyntaxError or one of five characterised internal kinds (parse_total_cases; all five proved unreachable by C03's parse_no_internal), every caret position is "
+             "inside the caller's string (parse_err_pos_in_range, all strings), space_invariance for parseOp (every redundant-space slot; trees equal up to positions and an injective "
+             "renumbering of fresh ids, errors keep their kind), parse_normal_form (every result satisfies the decidable normal form NRoot; layers normal_form_parse / _move_up / _brackets), "
+             "parse_print_parse (for EVERY string: a result outside the decidable class Excluded re-parses from its printed form to the same shape), parse_printable_iff (on parser results Printable = not Excluded; Excluded is exactly the "
+             "three refuted patterns, each with a necessity witness), print_parse_partial for every Printable tree, obligations over the extracted operator/literal tables, refutation witnesses "
+             "for print_parse (decide +kernel) + exhaustive (<=4/5 tokens) and random correspondence of tree/error/carets with the real parser, normal-form stream (model verdicts vs the real "
+             "round trip on every accepted string) + five oracles on the real code (exception class, carets, space insertion, print/re-parse, public ops never quote foreign text).",
+        note="Trusted: Lean kernel, driver, extractor of the parser constants/AST facts, harness. print_parse is refuted on the pinned tree exactly on the three patterns (D11, D18 with both origins, "
+             "listed in known_findings.json); that every tree containing one of the patterns fails to round-trip is witnessed and streamed, not proved in general.",
+        technique="Lean 4 proof over hand-written total parser model + regenerated constants + exhaustive/random differential correspondence",
+        design="5 (C12)"),
+    "C13": dict(
+        text="Lean model of namedtensor_calltensorfactory (call node + isinstance/shape asserts per factory argument, optional keywords by the rule REGENERATED from the AST) with theorems "
+             "factory_node_once / factory_node_count (all argument lists), factory_kwargs_declared_only, factory_asserts_before_use, factory_no_constraints, trace_is_pure, and a checker "
+             "factoryOK on real traced graphs with checker_sound and checker_guard. Props/C13Exec.lean discharges the former named hypothesis Exec: exec_from_compile (for every Graph.WF graph "
+             "of the supported node language the program emitted by the C04 generator evaluates exactly the reachable applications, each once), checker_sound_compiled, "
+             "factory_called_once_compiled (exactly one statement and exactly one event of the compiled program's trace calls the factory input, with one positional argument and the model's "
+             "keyword names), factory_call_value_compiled (exactly one call event has the factory object as function term). Ties: factory_check on pre/post-optimisation graphs, emitted text "
+             "vs model node list, exec_check (checker on the graph translated from the C04 graph, model text = real text, premises and instances per compiled graph); search: instrumented "
+             "factories (signature styles incl. sibling factories of one class/arity, misbehaving ones, python -O) over cold/warm/graph=True/rejected executions and every subset of positions.",
+        note="Trusted: Lean kernel, driver, extractor anchors (tracing evaluates nothing, graph=True returns before the call), the translation toFactory (cross-checked against the direct decoder), "
+             "CPython executing the emitted text, harness. The Exec theorems need the decidable premises Graph.WF, Supported (no nested-graph operands; outputs are pytrees of tracers) and "
+             "Factory.wf, the value level also rootStable and castsPlain - all evaluated on every compiled graph (all hold); the value of the positional argument is known on the node, not in the event.",
+        technique="Lean 4 proof over model + proved checker on real graphs + execution theorem through the C04 generator model + invocation-log search",
+        design="5 (C13)"),
     "C14": dict(
         text="Lean theorems about the update denotation (every assignment of the un-bracketed axes exactly once, add/subtract = target +/- sum of contributions and "
              "order independent, set leaves one competing value, untouched elements unchanged, missing axes repeat, get-after-set) and about the lowering "
              "(the _ravel multiplier kernel, mini-translated from the source on every run, computes the row-major address; np.put / ufunc.at realise the fold when "
-             "indices and updates are broadcast; obligation over the extracted registration flags) + correspondence of model and numpy primitives with the real code "
-             "+ nested-loop oracle search on real set_at/add_at/subtract_at/get_at calls.",
-        note="Trusted: Lean kernel, driver, AST extractor/mini-translator for classical_from_numpy.py and _ravel, numpy primitive semantics (conformance-tested each run), harness. "
-             "_join_exprs and the decomposer steps in front of the scatter are not modelled in Lean (the harness feeds the real order); coordinates are assumed in range.",
-        technique="Lean 4 proof over hand-written model + kernel translated from source + differential correspondence",
+             "indices and updates are broadcast; obligation over the extracted registration flags). Props/C14Join.lean: the lowering is modelled from the solved expressions ALONE "
+             "(Update/LowerProg.lean: _ravel line by line, expr_intermediate computed by the C16 model of _join_exprs, complete instruction sequences lowerUpdate/lowerGetAt; Update/Desc.lean: "
+             "the solved operation of the description): intermediate_spec (the join never raises and names every non-unit un-bracketed axis once), lower_update_correct_partial (for all modes, "
+             "descriptions, contents incl. duplicate addresses: value-level lowering with the regenerated kernel and registrations = denotation of the description's operation), "
+             "lower_get_at_correct. Props/C14Dtype.lean: index_arith_exact / extracted_kernel_exact (index arithmetic in a bounded dtype is exact below 2^(bits-1)), extracted_index_dtype_wide "
+             "(regenerated: the index ranges of _ravel have >= 32 bits, no casts), extracted_arange_fits, witness narrow_coordinate_dtype_wraps. Ties: model and numpy primitives vs the real "
+             "code; stream at_model (head / in-place primitive / tail of the model's instruction sequence = traced graph; per call the proved validator recomputes that the index operand is the "
+             "row-major address and the update operand the re-arranged update tensor; traced arange dtype = extracted one) "
+             "+ nested-loop oracle search on real set_at/add_at/subtract_at/get_at calls (duplicate coordinates, repeated target names, narrow coordinate dtypes).",
+        note="Trusted: Lean kernel, driver, AST extractor/mini-translator for classical_from_numpy.py and _ravel, numpy primitive semantics (in-place primitives at value level, conformance-tested "
+             "each run), harness. The instruction-level lowering is validated per traced call, not proved universally (the IR has no scatter instruction); lower_update_correct_partial keeps the "
+             "decidable hypothesis coveredB (recomputed per call) and assumes coordinates in range. The coordinate dtype is a caller precondition the code does not guarantee: open defect D22 "
+             "(get_at/set_at with int8 coordinates into a 20x20 target address wrong elements, no error; reproduced on real einx; no known_findings.json entry; the narrow-dtype stream chooses "
+             "sizes for which only the index ranges could wrap, so the check does not raise it). Repeated axis names, scalar coordinate tensors and the zero-sized shortcut are outside the "
+             "instruction-level model.",
+        technique="Lean 4 proof over hand-written model (denotation, value-level lowering from the description with the C16 join model) + kernel and dtype facts translated from source + instruction-level structural tie + differential correspondence",
         design="5 (C14)"),
-    "C12": dict(
-        text="Total executable Lean model of parse_op/parse_args/parse_arg (well-founded recursion, no fuel) over constants regenerated from the source; theorems: every string "
-             "yields a tree, a SyntaxError or one of five characterised internal kinds (parse_total_cases), every caret position is inside the caller's string "
-             "(parse_err_pos_in_range, all strings), space_invariance for parseOp (every redundant-space slot; trees equal up to positions and an injective renumbering of fresh ids, errors keep their kind), print_parse_partial for the decidable class Printable, obligations over the extracted operator/literal tables, refutation witnesses for print_parse "
-             "(decide +kernel) + exhaustive (<=4/5 tokens) and random correspondence of tree/error/carets with the real parser + five oracles on the real code "
-             "(exception class, carets, space insertion, print/re-parse, public ops never quote foreign text).",
-        note="Trusted: Lean kernel, driver, extractor of the parser constants/AST facts, harness. print_parse is refuted on the pinned tree (D11, D18, listed in known_findings.json); print_parse_partial excludes numeric axes inside brackets and doubled spaces, and that every parseOp result "
-             "outside the three refuted patterns is Printable is sampled, not proved; three internal asserts are not proved unreachable.",
-        technique="Lean 4 proof over hand-written total parser model + regenerated constants + exhaustive/random differential correspondence",
-        design="5 (C12)"),
+    "C15": dict(
+        text="Lean model of the adapter path (keyword split of op.inner, _expr_to_axis mini-translated from source, expected output shapes, traced node list) with theorems "
+             "kwonly_never_axis and split_partition (all keyword lists/descriptions), expr_to_axis_correct, position_interleave, reduce_axis_semantics IN FULL (under the documented numpy-like "
+             "contract the adapter equals the loop-notation denotation for every flat expression/tensor/assignment), adapt_result_checked, adaptOK_sound for the checker run on real graphs; "
+             "Props/C15Exec.lean: adapter_called_once_compiled / adapter_call_value_compiled (in the program the C04 generator emits for an accepted graph exactly one statement and one trace "
+             "event calls the user function - a constant object - with as many positional arguments as aligned tensors and exactly the specified keyword names). Ties: adaptOK on real graphs, "
+             "exec_check as for C13. Search: nine instrumented user functions (reduce/elementwise, with/without keyword-only options, misbehaving, python -O) vs the Python loop interpreter, "
+             "invocation logs, option histories (2 / 2.0 / True) against fresh adapters, served-by-foreign-adapter detection.",
+        note="Trusted: Lean kernel, driver, extractor, harness, the numpy-like contract as hypothesis. adapt_with_vmap cannot run here (no framework with vmap installed) and is neither "
+             "exercised nor modelled. reduce_axis_semantics is at the decomposed (flat) level; parentheses/permutation/keepdims go through C01's lowering. The compiled-program theorems need "
+             "Graph.WF, Supported, Factory.wf and (for the exactly-one conclusion) the decidable callsReachable, evaluated on every compiled graph.",
+        technique="Lean 4 proof over hand-written model + kernel translated from source + proved checker on real graphs + execution theorem through the C04 generator model + instrumented-function search",
+        design="5 (C15)"),
+    "C16": dict(
+        text="Lean models of every order-sensitive set-consumption site with the enumeration order as an explicit adversarial argument: join_exprs_order_invariant, reorder_add_sub_invariant "
+             "(full), reorder_set_invariant_partial + decide'd witness, implicit_output_order_invariant (over the extracted len==1 guard), cse_filters_order_invariant, "
+             "cse_order_invariant_partial + witness, keepMax_perm / registry_outcome_perm, fresh_name_invariant; cseTrees_order_independent (Props/C16Cse.lean, no hypothesis): the model of the "
+             "whole of stage2/cse.py returns, for every enumeration of its dict of candidates, the same trees with the new axes renumbered by a bijection (candidates_keys_nodup, "
+             "candidates_unique_ids); the join model is used inside the C14 lowering (intermediate_spec, stream at_model); obligation that EVERY set-consumption and random-draw site found by the AST "
+             "scan of the call path is classified (order-safe, message-only, guarded pop, or modelled) - a new site breaks it. Tie: cse_enum (model with reversed/rotated enumeration vs the real "
+             "result). Search: a fixed corpus (directed cases at every site + generated calls + failing calls) run in sub-processes under several PYTHONHASHSEED values and a different uuid "
+             "stream; digests must agree; graph=True twice per process.",
+        note="Trusted: Lean kernel, driver, the AST scan with intra-function set typing, harness. sympy-internal ordering and float summation order are not modelled (corpus samples them); "
+             "set_at with duplicate addresses is order sensitive in the model (witness) and relies on the fixed code choosing deterministically; the older partial CSE model keeps its "
+             "witness cse_overlap_order_sensitive (first-match), the current longest-match code is covered by cseTrees_order_independent without hypothesis.",
+        technique="Lean 4 proof with explicit enumeration-order parameter + source inventory obligation + multi-hash-seed corpus search",
+        design="5 (C16)"),
+    "C17": dict(
+        text="Lean: restricted statement grammar of emitted Python with a cost semantics: grammar_loop_free (a block performs exactly flatCalls calls for every environment), "
+             "cost_skeleton_invariant, skeleton_only_ints (equal skeletons iff same up to integer literals), stb_size_generic (the model of _squeeze_transpose_broadcast emits equal "
+             "skeletons for length assignments with the same 1-pattern, all expressions), stbU_size_generic, expr_to_axis_size_generic (Props/C17Lower.lean); Props/C17LowerOps.lean: "
+             "lower_elementwise_size_generic / lower_reduce_size_generic (for every operation, any number of operands and every two descriptions of the lowering models' domains with the same "
+             "group nesting, names and 1-pattern: if both are lowered, equal skeletons and result register, all lengths incl. zero and empty groups), reshape_noop_test_generic (the reshape "
+             "no-op tests - equalities between products of lengths - depend only on which members are 1), witness lower_elementwise_zero_length_witness; Props/C17Xlate.lean: the model "
+             "Generic.stb, the axis-id numbering and the numpy reshape/transpose/broadcast_to/diagonal wrappers are PROVED EQUAL to the typed translation of the current Python source "
+             "(extracted_stb_eq, extracted_idsOf_eq, extracted_reshapeW/transposeW/broadcastW_eq, extracted_diag_eq; diag_perm_moves: the diagonal axis is moved, not swapped; "
+             "diag_fuel_sufficient); obligations regenerated from the source (every size-dependent decision in the lowering modules is of "
+             "an allowed class; IR node kinds are straight-line; emitter fragments contain no control keywords). Ties: every emitted text must decode into the grammar in the Lean driver; the "
+             "stb/lowerId/lowerElementwise/lowerReduce model program equals the real traced graph; lower_generic recomputes hypotheses and instance of the size-genericity theorems for every "
+             "pair base / re-assignment; translated definitions vs the real functions, prelude vs CPython (xlate_tie); "
+             "search: same-1-pattern size re-assignments must give equal skeletons and call counts.",
+        note="Trusted: Lean kernel, driver, the taint-based source inventory, the typed Python->Lean mini translator and its reading of the builtins (Basic/PyPrelude.lean, conformance-tested "
+             "against CPython and the real functions on every run), harness. Size-genericity is a theorem for _squeeze_transpose_broadcast (both values of broadcast_to_unitary), _expr_to_axis, "
+             "id partially and the whole elementwise/reduce pipelines of the models (both lowerings assumed defined: definedness is not size-generic with zero lengths, which einx's solver "
+             "rejects; the models are tied to traced graphs by lower_model; unnamed axes are renamed per call before an instance is recomputed); all other lowering "
+             "paths (dot, id with several tensors, concatenation, indexing) rest on the source obligation, the ties and the search (stated in evidence). Translation theorems are about flat expressions and non-negative diagonal axes. Only numpy backends run here (no nested-def code from vmap backends).",
+        technique="Lean 4 proof (grammar cost semantics, size-genericity of stb and of the elementwise/reduce lowering models, model = translation of the source) + source inventory obligation + skeleton search",
+        design="5 (C17)"),
 }
 
 ALL = [f"C{i:02d}" for i in range(1, 18)]
